@@ -115,7 +115,7 @@ def dispatchSet (d : Disp) (id : Id) (cmd : Option Hnd) (arg : Nat) : Disp × In
     match commandGet d.tab id with
     | none => (d, Err.BadArgument.code, [])
     | some (i, s) =>
-      -- finalise, then `cmd = 0, arg = 0`; the position is returned
+      -- `cmd = 0, arg = 0`, then the end-of-life call (detached first since acffd38); the position is returned
       ({ d with tab := d.tab.map fun t => { t with slots := t.slots.set i { s with cmd := none, arg := 0 } } }, i, finalise s)
   | some c =>
     match commandGet d.tab id with
